@@ -20,7 +20,7 @@ def _with_common(spec, **extra):
     return dict(spec, common=common)
 
 
-def build_route(route, tf, rows, fill=False, lifespan_s=None, ctype=None, spec=None):
+def build_route(route, tf, rows, fill=False, lifespan_s=None, ctype=None, spec=None, kw_level=None):
     """Returns (subject with .append, manager, view() -> candle list of the manager under test).
     For the indicator / hexital routes `subject.member` is the real Indicator object."""
     spec = spec or EMA3
@@ -50,6 +50,14 @@ def build_route(route, tf, rows, fill=False, lifespan_s=None, ctype=None, spec=N
         hx = Hexital("sim", candles, [member], timeframe=tf, timeframe_fill=fill,
                      candles_lifespan=life, candlestick_type=ctype)
         return hx, hx._candles["default"], (lambda: hx.candles())
+    if route == "hexital_two_level":
+        # the Hexital itself collapses to a finer level timeframe, the member to a multiple of it:
+        # the member's candles must still be the plain resampling of the raw stream
+        level = kw_level
+        member = build(_with_common(spec, timeframe=tf))
+        hx = Hexital("sim", candles, [member], timeframe=level, timeframe_fill=fill, candles_lifespan=life,
+                     candlestick_type=ctype)
+        return hx, hx._candles[tf.upper()], (lambda: hx.candles(tf))
     raise ValueError(route)
 
 
